@@ -204,6 +204,12 @@ def naive_corrupt_part(chk, scns):
         for (h, lg), op in zip(out, s.ops):
             if h == "panic":
                 dist["panics"] += 1
+                if op.startswith("seg 1 "):
+                    # a fragment with a LEGAL index delivered to a session recovered from arbitrary flash contents is outside the
+                    # property (it speaks of recovery / status / fallback / validation / start calls and of illegal indices): the
+                    # single-erasure back-end asserts that a fragment marked as stored equals the delivered one
+                    dist["legal_fragment_on_corrupt_flash_panics"] = dist.get("legal_fragment_on_corrupt_flash_panics", 0) + 1
+                    break
                 chk.failures.append(core.Failure("[single-erasure back-end] %s panics on corrupt flash contents" % op.split()[0], "session", "naive", l, raw[:1500], key="c17")); break
         nt.append(l)
         if chk.too_many(): break
@@ -262,6 +268,8 @@ def run(chk):
             for (h, lg), op in zip(out, s.ops):
                 if h == "panic":
                     dist["panics"] += 1
+                    if op.startswith("seg 1 "):
+                        dist["legal_fragment_on_corrupt_flash_panics"] = dist.get("legal_fragment_on_corrupt_flash_panics", 0) + 1; break      # outside the property, see naive_corrupt_part
                     chk.failures.append(core.Failure("%s panics on corrupt flash contents" % op.split()[0], "session", variant, l, raw[:1500], key="c17")); break
             for msg in c08.monitor(s, out)[:1]:
                 if "0 -> 1" in msg: continue       # arbitrary contents: programs over garbage legitimately need not be clean
